@@ -42,6 +42,8 @@ type Exec struct {
 	Order   []string
 	loops   map[*ssa.BasicBlock]*loopInfo
 	hooksAt map[ssa.Instruction][]*Hook
+	identHooks map[*Hook]map[string]bool // hooks attached through baseline identities
+	mute       bool                      // side computation: record no obligations
 	entry   *State
 	paths   int
 	Notes   []string
@@ -91,6 +93,9 @@ func (x *Exec) pkgPath() string {
 
 func (x *Exec) oblig(name, kind string, tags []string, pos token.Pos) *Oblig {
 	full := x.name + "/" + name
+	if x.mute {
+		return &Oblig{Name: full, Kind: kind}
+	}
 	if o, ok := x.Obligs[full]; ok {
 		return o
 	}
@@ -105,6 +110,13 @@ func (x *Exec) Assert(st *State, o *Oblig, goal Term) {
 	if goal.Sort != SBool {
 		panic("assert of non-bool: " + goal.S)
 	}
+	if x.mute {
+		// side computation (peeking at a loop head): no obligation is recorded
+		if goal.S != "false" {
+			st.Restrict(goal)
+		}
+		return
+	}
 	if goal.S == "true" {
 		// trivially true instance: still counts as an instance (discharged syntactically)
 		o.VCs = append(o.VCs, &VC{Goal: goal, Path: strings.Join(st.path, ";")})
@@ -118,6 +130,9 @@ func (x *Exec) Assert(st *State, o *Oblig, goal Term) {
 
 // Cover records a satisfiability check of the current path condition.
 func (x *Exec) Cover(st *State, name string, pos token.Pos) {
+	if x.mute {
+		return
+	}
 	o := x.oblig("cover["+name+"]", "cover", nil, pos)
 	o.Expect = "sat"
 	if len(o.VCs) >= 400 {
@@ -718,6 +733,118 @@ func (x *Exec) analyzeLoops() {
 	}
 }
 
+// countBound: for a counting loop whose head tests `i < e` (or `i <= e`) with e computed in the head
+// from state the loop does not modify, the comparison instruction; nil otherwise.
+func (x *Exec) countBound(li *loopInfo) *ssa.BinOp {
+	if li.countVar == nil {
+		return nil
+	}
+	iff, ok := li.head.Instrs[len(li.head.Instrs)-1].(*ssa.If)
+	if !ok {
+		return nil
+	}
+	b, ok := iff.Cond.(*ssa.BinOp)
+	if !ok || (b.Op != token.LSS && b.Op != token.LEQ) {
+		return nil
+	}
+	if ld, ok := b.X.(*ssa.UnOp); !ok || ld.Op != token.MUL || ld.X != ssa.Value(li.countVar) {
+		return nil
+	}
+	modLoc := map[*ssa.Alloc]bool{}
+	for _, a := range li.modLoc {
+		modLoc[a] = true
+	}
+	modKey := map[string]bool{}
+	for _, k := range li.modKeys {
+		modKey[k] = true
+	}
+	var constant func(v ssa.Value, d int) bool
+	constant = func(v ssa.Value, d int) bool {
+		if d > 8 {
+			return false
+		}
+		switch u := v.(type) {
+		case *ssa.Const, *ssa.Parameter:
+			return true
+		case *ssa.BinOp:
+			return constant(u.X, d+1) && constant(u.Y, d+1)
+		case *ssa.Call:
+			if bi, ok := u.Call.Value.(*ssa.Builtin); ok && (bi.Name() == "len" || bi.Name() == "cap") && len(u.Call.Args) == 1 {
+				if _, isMap := u.Call.Args[0].Type().Underlying().(*types.Map); isMap {
+					return false
+				}
+				if _, isChan := u.Call.Args[0].Type().Underlying().(*types.Chan); isChan {
+					return false
+				}
+				return constant(u.Call.Args[0], d+1)
+			}
+			return false
+		case *ssa.UnOp:
+			if u.Op != token.MUL {
+				return false
+			}
+			switch a := u.X.(type) {
+			case *ssa.Alloc:
+				return !a.Heap && !modLoc[a]
+			case *ssa.FieldAddr:
+				st := derefType(a.X.Type())
+				if st == nil || !isStruct(st) {
+					return false
+				}
+				k, _ := x.fieldHeapKey(st, a.Field)
+				return !modKey[k] && constant(a.X, d+1)
+			}
+			return false
+		case *ssa.ChangeType:
+			return constant(u.X, d+1)
+		}
+		return false
+	}
+	if !constant(b.Y, 0) {
+		return nil
+	}
+	// the head must only read
+	for _, in := range li.head.Instrs[:len(li.head.Instrs)-1] {
+		switch i := in.(type) {
+		case *ssa.UnOp, *ssa.BinOp, *ssa.FieldAddr, *ssa.DebugRef, *ssa.ChangeType, *ssa.Field:
+			if u, ok := in.(*ssa.UnOp); ok && u.Op == token.ARROW {
+				return nil
+			}
+		case *ssa.Call:
+			if _, ok := i.Call.Value.(*ssa.Builtin); !ok {
+				return nil
+			}
+		default:
+			return nil
+		}
+	}
+	return b
+}
+
+// peekBound evaluates the bound operand of a counting loop's test in a copy of st positioned at the head.
+func (x *Exec) peekBound(st *State, li *loopInfo, b *ssa.BinOp) (y Term, ok bool) {
+	defer func() {
+		x.mute = false
+		if r := recover(); r != nil {
+			ok = false
+		}
+	}()
+	q := st.clone()
+	q.fr.blk = li.head
+	x.mute = true
+	for _, in := range li.head.Instrs[:len(li.head.Instrs)-1] {
+		x.step(q, in)
+		if q.dead {
+			return Term{}, false
+		}
+	}
+	y = x.tval(q, b.Y)
+	if b.Op == token.LEQ {
+		y = Add(y, IntLit(1))
+	}
+	return y, y.Sort == SInt
+}
+
 // countingVar recognises `for i := c; i < e; i++` (any initial value): the head compares a
 // non-escaping local with something, and the only store to that local inside the loop adds 1.
 func countingVar(li *loopInfo) *ssa.Alloc {
@@ -975,7 +1102,54 @@ func (x *Exec) sendText(pos token.Pos) string {
 	return ""
 }
 
+// mapHooks attaches hooks to instructions: by the text of their anchors, and - for a hook whose
+// text selects nothing any more - by the source-independent identity recorded in the baseline.
 func (x *Exec) mapHooks() {
+	x.mapHooksText()
+	if x.fc == nil || x.fn == nil {
+		return
+	}
+	bf := loadBaseline().Funcs[x.name]
+	if bf == nil {
+		return
+	}
+	x.identHooks = map[*Hook]map[string]bool{}
+	for hi, h := range x.fc.Hooks {
+		if h.Used > 0 || hi >= len(bf.Hooks) {
+			continue
+		}
+		bh := bf.Hooks[hi]
+		if !bh.Exact || bh.Kind != h.Kind || bh.Anchor != h.Anchor {
+			continue
+		}
+		set := map[string]bool{}
+		for _, id := range bh.Idents {
+			set[id] = true
+		}
+		var walk func(f *ssa.Function)
+		walk = func(f *ssa.Function) {
+			for _, b := range f.Blocks {
+				for _, in := range b.Instrs {
+					for _, id := range x.instrIdentities(in)[h.Kind] {
+						if set[id] {
+							x.hooksAt[in] = append(x.hooksAt[in], h)
+							h.Used++
+							x.identHooks[h] = set
+							x.note("hook on %s %q matched through the baseline identity %s", h.Kind, h.Anchor, id)
+							break
+						}
+					}
+				}
+			}
+			for _, a := range f.AnonFuncs {
+				walk(a)
+			}
+		}
+		walk(x.fn)
+	}
+}
+
+func (x *Exec) mapHooksText() {
 	x.hooksAt = map[ssa.Instruction][]*Hook{}
 	if x.fc == nil || len(x.fc.Hooks) == 0 {
 		return
